@@ -1,10 +1,50 @@
-import ZapVerif.Model.Entry
-/-! # C02 — the JSON encoder always emits one well-formed JSON object per entry, on one line -/
+import ZapVerif.Proofs.EntryWF
+/-! # C02 — JSON output decodes to exactly the logged values, in order, at the right nesting -/
 namespace ZapVerif.C02
-open ZapVerif ZapVerif.Esc ZapVerif.Json ZapVerif.Enc
+open ZapVerif ZapVerif.Esc ZapVerif.Json ZapVerif.Enc ZapVerif.Entry
 
-/-- whatever the input bytes (hostile, invalid UTF-8, control characters, quotes), the escaped text is a legal
-    JSON string body: no raw byte < 0x20, no bare quote, every backslash starts a legal escape -/
-theorem escape_body_safe (s : Bytes) : runD 0 (esc s) = some 0 := escape_ok s.length s
+/-- the emitted line IS the rendering of the object whose members are `entryMembers` (Proofs/EntryWF.lean):
+    metadata under the omission rules of `metaCalls`, then context fields, then call-site fields, in the order
+    added, every namespace nesting what follows it, the stack trace last at top level -/
+theorem encodeEntry_eq_render (c : Cfg) (e : Ent) (ctx : List (List Field)) (fields : List Field)
+    (he : EntOK e) (hc : ∀ fs ∈ ctx, ∀ f ∈ fs, FieldOK f) (hf : ∀ f ∈ fields, FieldOK f) :
+    jsonLine c e ctx fields = render (J.obj (entryMembers c e ctx fields)) ++ c.ending :=
+  jsonLine_eq_render c e ctx fields he hc hf
+
+/-- decoding an emitted line yields exactly that tree: every member, in order, at its nesting, duplicates kept -/
+theorem decode_emitted (c : Cfg) (e : Ent) (ctx : List (List Field)) (fields : List Field)
+    (he : EntOK e) (hc : ∀ fs ∈ ctx, ∀ f ∈ fs, FieldOK f) (hf : ∀ f ∈ fields, FieldOK f) :
+    ∃ body, jsonLine c e ctx fields = body ++ c.ending ∧
+      parseV (size (J.obj (entryMembers c e ctx fields))) body = some (J.obj (entryMembers c e ctx fields), []) :=
+  ⟨_, jsonLine_eq_render c e ctx fields he hc hf, parse_render _ (entryMembers_ok c e ctx fields he hc hf).1⟩
+
+/-- nesting lemmas: what each kind of call contributes to the tree -/
+theorem denote_prim (k : Bytes) (v : J) (r : List OC) : denO (OC.prim k v :: r) = (esc k, v) :: denO r := by
+  simp [denO]
+theorem denote_object (k : Bytes) (body r : List OC) :
+    denO (OC.obj k body :: r) = (esc k, J.obj (denO body)) :: denO r := by simp [denO]
+theorem denote_array (k : Bytes) (body : List AC) (r : List OC) :
+    denO (OC.arr k body :: r) = (esc k, J.arr (denA body)) :: denO r := by simp [denO]
+/-- a namespace nests *everything that follows at that level* -/
+theorem denote_namespace (k : Bytes) (r : List OC) : denO (OC.ns k :: r) = [(esc k, J.obj (denO r))] := by
+  simp [denO]
+/-- inlined and dict fields: an inline marshaler's calls land in the enclosing object; a dict is an object of
+    its fields' calls -/
+theorem denote_inline (k : Bytes) (body : List OC) : addTo (.inline k body none) = body := by simp [addTo, errCall]
+
+/-- values: integers are rendered by `fmtInt`/`fmtNat` (decimal, full range — `Int`/`Nat` are unbounded),
+    non-finite floats as the strings NaN / +Inf / -Inf, strings through `esc` -/
+theorem value_nan (txt : Bytes) (inf : Int) : scalarJ (.float true inf txt) = J.str [78, 97, 78] := by simp [scalarJ]
+theorem value_posinf (txt : Bytes) : scalarJ (.float false 1 txt) = J.str [43, 73, 110, 102] := by simp [scalarJ]
+theorem value_neginf (txt : Bytes) : scalarJ (.float false (-1) txt) = J.str [45, 73, 110, 102] := by simp [scalarJ]
+theorem value_finite (txt : Bytes) : scalarJ (.float false 0 txt) = J.atom txt := by simp [scalarJ]
+theorem value_string (s : Bytes) : scalarJ (.str s) = J.str (esc s) := rfl
+
+/-- errors: message under the key, verbose form under key+"Verbose" iff it differs, causes under key+"Causes" -/
+theorem error_basic (k basic : Bytes) :
+    addTo (.error k (.mk (.ok basic) none false [])) = [strPrim k basic] := by simp [addTo, encErr, errCall]
+theorem error_verbose (k basic v : Bytes) (h : v ≠ basic) :
+    addTo (.error k (.mk (.ok basic) (some v) false [])) = [strPrim k basic, strPrim (sfx k "Verbose") v] := by
+  simp [addTo, encErr, errCall, h]
 
 end ZapVerif.C02
